@@ -267,6 +267,15 @@ func policyLabels(p pdfsyn.Policy) []string {
 
 func genTree(t *rapid.T) TreeCase {
 	tree := pdfsyn.GenObj(t, pdfsyn.GenOpts{MaxDepth: 4})
+	if rapid.IntRange(0, 24).Draw(t, "wide") == 0 {
+		// a wide, shallow tree: hundreds of small arrays and dictionaries side by side (the /W array of a CID
+		// font, a /Kids array, a name tree leaf): nesting depth 2-3, but far more containers than any depth limit
+		n := rapid.IntRange(520, 900).Draw(t, "wideLen")
+		tree = pdfsyn.Obj{K: pdfsyn.Array}
+		for i := 0; i < n; i++ {
+			tree.A = append(tree.A, pdfsyn.GenObj(t, pdfsyn.GenOpts{MaxDepth: 2, MaxLen: 2, NoBare: true}))
+		}
+	}
 	pol := pdfsyn.GenPolicy(t)
 	// features with a recorded defect in core.Parser are excluded by construction
 	if pol.Comments && tree.HasRef() {
@@ -293,6 +302,9 @@ func genTree(t *rapid.T) TreeCase {
 	c.Labels = append(policyLabels(pol), usedLabels(w.Used)...)
 	c.Labels = append(c.Labels, kindsOf(tree)...)
 	c.Labels = append(c.Labels, fmt.Sprintf("depth:%d", tree.Depth()))
+	if tree.K == pdfsyn.Array && len(tree.A) >= 520 {
+		c.Labels = append(c.Labels, "wide-tree")
+	}
 	if c.CS {
 		c.Labels = append(c.Labels, "clause:cs")
 	}
